@@ -18,23 +18,24 @@ import re
 import sys
 import types
 import typing
+import zlib
 
 from harness import core, tl
 from harness.core import st
 from harness.oracles import exc_bucket, snapshot
 
 ID = "C15"
-RULE = ("all annotations of depth <= 2 over 52 leaves x 17 unary and 5 binary constructors (exhaustive) plus sampled depth-3 "
+RULE = ("all annotations of depth <= 2 over 54 leaves x 17 unary and 5 binary constructors (exhaustive) plus sampled depth-3 "
         "annotations; non-trivial = an extended constructor (Any, object, bare/unparameterised generic, TypeVar, Callable, "
         "type[..], user Generic, hint-less class) occurs below the root; distinct by annotation expression")
 ASSUMPTIONS = ["annotations that Python itself refuses to construct are skipped (counted)",
-               "'behaves alike' is judged on a fixed battery of 12 inputs per routine"]
+               "'behaves alike' is judged on a fixed battery of 19 inputs per routine"]
 TECHNIQUE = "exhaustive enumeration of the annotation grammar to depth 2 + Hypothesis sampling at depth 3; totality oracle under watchdog, repeatability (three builds) and pass-through identity checks"
 LEVEL_TEXT = ("Complete enumeration of the extended constructor grammar to depth 2 (about 9 000 annotations) with construction "
               "of all three routine kinds under a watchdog, a repeat after a cache hit and after clearing all caches, a behavioural "
               "battery, and identity checks for pass-through members; depth 3 sampled.")
 LEVEL_NOTE = "trusts the watchdog (20 s, typical build 2 ms) as the meaning of 'terminates'"
-EXHAUSTIVE_NOTE = "depth <= 2: 52 leaves, 17 unary x 52 + 5 binary x 52 x 52 annotations, complete on every run"
+EXHAUSTIVE_NOTE = "depth <= 2: 54 leaves, 17 unary x 54 + 5 binary x 54 x 54 annotations, complete on every run"
 
 MOD = "c15_types_mod"
 SRC = '''
@@ -71,6 +72,21 @@ class NT(NamedTuple):
     q: str = "q"
 class TD(TypedDict):
     k: int
+class SelfSet:
+    """annotated attributes, one of which the class assigns on its own (no constructor parameter for it)"""
+    value: int
+    meta: Any
+    def __init__(self, value: int = 0):
+        self.value = value
+        self.meta = {"made": value}
+    def __eq__(self, o):
+        return type(o) is type(self) and vars(o) == vars(self)
+    def __repr__(self):
+        return f"SelfSet({self.value!r})"
+@dataclasses.dataclass
+class DCNoInit:
+    a: int = 0
+    made: list = dataclasses.field(default_factory=list, init=False)
 class Sentinel:
     def __repr__(self):
         return "<sentinel>"
@@ -87,12 +103,12 @@ LEAVES = ["int", "str", "float", "bool", "bytes", "decimal.Decimal", "datetime.d
           "typing.List", "typing.Dict", "typing.Tuple", "typing.Set", "typing.Sequence", "typing.Mapping", "T", "TB", "TC",
           "typing.Callable", "typing.Callable[..., int]", "typing.Callable[[int], str]", "collections.abc.Callable[[int], str]",
           "type", "type[int]", "typing.Type[DC]", "G", "G[int]", "NoHints", "NoHintsInit", "NoHintsDefaults", "DC", "E", "NT", "TD",
-          "typing.Literal[1, 'a']", "typing.Iterable", "collections.deque", "AL_NoHints", "AL_listAny", "AL_Lit", "TBN", "NT_NoHints",
+          "typing.Literal[1, 'a']", "typing.Iterable", "collections.deque", "SelfSet", "DCNoInit", "AL_NoHints", "AL_listAny", "AL_Lit", "TBN", "NT_NoHints",
           "list[Any]"]
 EXTENDED = {"Any", "object", "list", "dict", "tuple", "set", "frozenset", "typing.List", "typing.Dict", "typing.Tuple",
             "typing.Set", "typing.Sequence", "typing.Mapping", "T", "TB", "TC", "typing.Callable", "typing.Callable[..., int]",
             "typing.Callable[[int], str]", "collections.abc.Callable[[int], str]", "type", "type[int]", "typing.Type[DC]", "G",
-            "G[int]", "NoHints", "NoHintsInit", "NoHintsDefaults", "typing.Iterable", "collections.deque", "AL_NoHints", "AL_listAny", "AL_Lit", "TBN",
+            "G[int]", "NoHints", "NoHintsInit", "NoHintsDefaults", "typing.Iterable", "collections.deque", "SelfSet", "DCNoInit", "AL_NoHints", "AL_listAny", "AL_Lit", "TBN",
             "NT_NoHints", "list[Any]"}
 # classes without any annotation: the parameters of __init__ are their (unresolvable) members
 HINTLESS = {"NoHintsInit": ["a", "b"], "NoHintsDefaults": ["name", "retries", "label", "ratio", "flags", "when"]}
@@ -156,7 +172,9 @@ def _holder_eq(self, o):
     return type(o) is type(self) and o.x == self.x and o.y == self.y
 
 
-BATTERY_SRC = ["1", "'1'", "'a'", "None", "[1, '2']", "{'a': 1}", "(1, 2)", "1.5", "b'x'", "SENT", "{'x': 1, 'y': 2}", "[]"]
+BATTERY_SRC = ["1", "'1'", "'a'", "None", "[1, '2']", "{'a': 1}", "(1, 2)", "1.5", "b'x'", "SENT", "{'x': 1, 'y': 2}", "[]",
+               # instances of the classes that set an annotated attribute themselves, bare and inside the usual containers
+               "SelfSet(3)", "[SelfSet(3)]", "{'a': SelfSet(3)}", "DCNoInit(1)", "[DCNoInit(1)]", "{'value': '4'}", "{'a': '5'}"]
 
 
 def battery(T):
@@ -167,7 +185,7 @@ def battery(T):
     ku, ur = tl.call(tl.unmarshaller, T)
     kc, cd = tl.call(tl.codec, T)
     for src in BATTERY_SRC:
-        x = sent if src == "SENT" else eval(src)  # noqa: S307
+        x = sent if src == "SENT" else eval(src, dict(n))  # noqa: S307
         for name, k, r in (("marshal", km, mr), ("unmarshal", ku, ur)):
             if k == "exc":
                 out.append((name, src, "unbuilt"))
@@ -222,7 +240,13 @@ def check_annotation(expr, col, passthrough=None, nontrivial=False, source="exha
     tl.clear_all()
     try:
         with core.watchdog(20):
-            built = {name: tl.call(f, T) for name, f in (("marshaller", tl.marshaller), ("unmarshaller", tl.unmarshaller), ("codec", tl.codec))}
+            # the three kinds in an order that depends on the annotation (the cold process always builds marshaller,
+            # unmarshaller, codec): which routine of a type is built first must not matter
+            kinds = [("marshaller", tl.marshaller), ("unmarshaller", tl.unmarshaller), ("codec", tl.codec)]
+            rot = zlib.crc32(expr.encode()) % 3
+            kinds = kinds[rot:] + kinds[:rot]
+            col.label(f"first-built:{kinds[0][0]}")
+            built = {name: tl.call(f, T) for name, f in kinds}
     except core.WatchdogTimeout:
         col.violation("construction-terminates", case, f"routines for {expr} did not build within 20 s")
         return
